@@ -19,4 +19,9 @@ json.dump(out, open('/verif/contracts/decorators.json', 'w'), indent=1, sort_key
 # the shape of every loop an invariant was written against (see pyvc/verify.py: a failed obligation of a function whose loops were
 # restructured is a failed proof, not a violation)
 json.dump({k: v for k, v in loops.items() if v}, open('/verif/contracts/loops.json', 'w'), indent=1, sort_keys=True)
+import hashlib
+repo = sys.argv[1] if len(sys.argv) > 1 else '/repo'
+files = sorted({k.split('::')[0] for k in out})
+json.dump({f: hashlib.sha256(open(os.path.join(repo, f), 'rb').read()).hexdigest()[:16] for f in files},
+          open('/verif/contracts/file_shas.json', 'w'), indent=1, sort_keys=True)
 print(len(out), 'functions,', sum(1 for v in loops.values() if v), 'with loops')
